@@ -163,7 +163,10 @@ def build(case):
             y[tuple(idx)] = sl
     data = {"y": (tuple(alld), y)}
     if case["mode"] == "hist":
-        data["v"] = (tuple(alld), y * 2.0)
+        v_ = y * 2.0
+        if case["dseed"] % 3 == 0:
+            v_ = np.round(v_)          # quantised data (counts, integers): samples lie exactly ON bin edges
+        data["v"] = (tuple(alld), v_)
     if case["mode"] == "lines" and case["dseed"] % 5 == 0 and not case.get("xvar"):
         data["e"] = (tuple(alld), np.abs(rng.normal(size=shape)) * 0.1)
     if case["dseed"] % 4 == 1 and case["mode"] in ("lines", "hist", "aggregate"):
